@@ -10,6 +10,8 @@ def one(d):
     t = os.path.basename(d.rstrip('/'))
     p = os.path.join(d, 'meta.json')
     m = json.load(open(p))
+    if m.get('neutralised_by'):
+        return t, m['check']['verdict_now']     # equivalent on the repaired tree (see meta.json); nothing to run
     checks = m['check']['command'].split('(equivalent')[0].split()[3:] or [t[:3]]
     out = subprocess.run(['tools/mutcheck_par.sh', os.path.join(d, 'patch.diff'), t] + checks, capture_output=True, text=True).stdout
     v = 'DETECTED' if ' DETECTED ' in out else ('BROKEN' if ('BROKEN' in out or 'does not apply' in out) else 'MISSED')
